@@ -1357,6 +1357,13 @@ class Tensor:
                         f"`grad` must be broadcast-compatible with `tensor.shape={self.shape}`\n"
                         f"Got `grad.shape={_grad.shape}`"
                     )
+            if _grad.strides != self.data.strides:
+                # The gradient must share the memory layout of its tensor so
+                # that each view of the tensor has a corresponding view of
+                # the gradient
+                tmp = np.empty_like(self.data)
+                tmp[...] = _grad
+                _grad = tmp
         else:
             _grad = np.full_like(self.data, fill_value=1.0)
 
